@@ -429,6 +429,141 @@ fn is_directory_empty(path: &std::path::Path) -> std::io::Result<bool> {
     Ok(entries.next().is_none())
 }
 
+/// Verification hook (compiled only with `--cfg nomt_verif`): the manifest code (`Meta::read`,
+/// `Meta::validate`, `Meta::create_new`, `Meta::encode_to`, `Meta::decode`) on caller-supplied
+/// files / bytes, and the parameters an opened [`Store`] actually runs with. Nothing here is used
+/// by the store itself.
+#[cfg(nomt_verif)]
+pub mod verif_open {
+    use super::{meta::Meta, Store};
+    use crate::io::PagePool;
+    use std::fs::File;
+
+    /// The fields of a manifest.
+    #[derive(Debug, Clone, PartialEq, Eq)]
+    pub struct MetaFields {
+        pub magic: [u8; 4],
+        pub version: u32,
+        pub ln_freelist_pn: u32,
+        pub ln_bump: u32,
+        pub bbn_freelist_pn: u32,
+        pub bbn_bump: u32,
+        pub sync_seqn: u32,
+        pub bitbox_num_pages: u32,
+        pub bitbox_seed: [u8; 16],
+        pub rollback_start_live: u64,
+        pub rollback_end_live: u64,
+    }
+
+    fn fields_of(m: &Meta) -> MetaFields {
+        MetaFields {
+            magic: m.magic,
+            version: m.version,
+            ln_freelist_pn: m.ln_freelist_pn,
+            ln_bump: m.ln_bump,
+            bbn_freelist_pn: m.bbn_freelist_pn,
+            bbn_bump: m.bbn_bump,
+            sync_seqn: m.sync_seqn,
+            bitbox_num_pages: m.bitbox_num_pages,
+            bitbox_seed: m.bitbox_seed,
+            rollback_start_live: m.rollback_start_live,
+            rollback_end_live: m.rollback_end_live,
+        }
+    }
+
+    fn meta_of(f: &MetaFields) -> Meta {
+        Meta {
+            magic: f.magic,
+            version: f.version,
+            ln_freelist_pn: f.ln_freelist_pn,
+            ln_bump: f.ln_bump,
+            bbn_freelist_pn: f.bbn_freelist_pn,
+            bbn_bump: f.bbn_bump,
+            sync_seqn: f.sync_seqn,
+            bitbox_num_pages: f.bitbox_num_pages,
+            bitbox_seed: f.bitbox_seed,
+            rollback_start_live: f.rollback_start_live,
+            rollback_end_live: f.rollback_end_live,
+        }
+    }
+
+    /// The real `Meta::read` on `file`; then the real `Meta::validate` (its error text).
+    pub fn meta_read_validate(file: &File) -> std::io::Result<(MetaFields, Result<(), String>)> {
+        let meta = Meta::read(&PagePool::new(), file)?;
+        let verdict = meta.validate().map_err(|e| format!("{e}"));
+        Ok((fields_of(&meta), verdict))
+    }
+
+    /// The real `Meta::decode` (asserts `buf.len() >= 64`) and `Meta::validate`.
+    pub fn meta_decode_validate(buf: &[u8]) -> (MetaFields, Result<(), String>) {
+        let meta = Meta::decode(buf);
+        let verdict = meta.validate().map_err(|e| format!("{e}"));
+        (fields_of(&meta), verdict)
+    }
+
+    /// The real `Meta::encode_to` into a buffer of `len` zero bytes.
+    pub fn meta_encode(fields: &MetaFields, len: usize) -> Vec<u8> {
+        let mut buf = vec![0u8; len];
+        meta_of(fields).encode_to(&mut buf);
+        buf
+    }
+
+    /// The real `Meta::create_new`.
+    pub fn meta_create_new(bitbox_seed: [u8; 16], bitbox_num_pages: u32) -> MetaFields {
+        fields_of(&Meta::create_new(bitbox_seed, bitbox_num_pages))
+    }
+
+    /// What an opened [`Store`] runs with.
+    #[derive(Debug, Clone, PartialEq, Eq)]
+    pub struct OpenedParams {
+        /// `Sync`: the values the next manifest will be written from.
+        pub sync_seqn: u32,
+        pub sync_num_pages: u32,
+        pub sync_seed: [u8; 16],
+        pub panic_on_sync: bool,
+        /// bitbox: the seed pages are probed with, capacity and occupancy.
+        pub bitbox_seed: [u8; 16],
+        pub bitbox_capacity: usize,
+        pub bitbox_occupied: usize,
+        /// beatree allocators: bump and free-list head of `ln` / `bbn`.
+        pub ln_bump: u32,
+        pub ln_freelist_head: Option<u32>,
+        pub bbn_bump: u32,
+        pub bbn_freelist_head: Option<u32>,
+        /// rollback: the live range of the segmented log and the number of in-memory deltas.
+        pub rollback: Option<((u64, u64), usize)>,
+        pub poisoned: bool,
+        pub has_flock: bool,
+    }
+
+    pub fn opened_params(store: &Store) -> OpenedParams {
+        let sync = store.sync.lock();
+        let util = store.shared.pages.utilization();
+        let ((ln_bump, ln_freelist_head), (bbn_bump, bbn_freelist_head)) =
+            store.shared.values.verif_allocator_params();
+        let rollback = store.shared.rollback.as_ref().map(|r| {
+            let view = crate::rollback::verif_delta::log_view(r);
+            (view.seglog_range, view.log.len())
+        });
+        OpenedParams {
+            sync_seqn: sync.sync_seqn,
+            sync_num_pages: sync.bitbox_num_pages,
+            sync_seed: sync.bitbox_seed,
+            panic_on_sync: sync.panic_on_sync.is_some(),
+            bitbox_seed: store.shared.pages.verif_seed(),
+            bitbox_capacity: util.capacity,
+            bitbox_occupied: util.occupied,
+            ln_bump,
+            ln_freelist_head,
+            bbn_bump,
+            bbn_freelist_head,
+            rollback,
+            poisoned: store.is_poisoned(),
+            has_flock: store.shared.flock.is_some(),
+        }
+    }
+}
+
 #[cfg(test)]
 mod tests {
     use super::{PagePool, Store};
